@@ -321,6 +321,9 @@ def find_irrelevant_type(etype: tp.Type, types: List[tp.Type],
 
     if isinstance(etype, tp.TypeParameter):
         if etype.bound is None or etype.bound == factory.get_any_type():
+            # Every type is irrelevant to an unbounded type variable, except
+            # for the top type.
+            types = [t for t in types if t != factory.get_any_type()]
             return choose_type(types, only_regular=True)
         else:
             etype = etype.bound
